@@ -484,7 +484,7 @@ func (s *Storage) SaveServiceGCSafePoint(ssp *ServiceSafePoint) error {
 		return errors.New("TTL of gc_worker's service safe point must be infinity")
 	}
 
-	key := path.Join(gcPath, "safe_point", "service", ssp.ServiceID)
+	key := serviceGCSafePointKey(ssp.ServiceID)
 	value, err := json.Marshal(ssp)
 	if err != nil {
 		return err
@@ -498,8 +498,15 @@ func (s *Storage) RemoveServiceGCSafePoint(serviceID string) error {
 	if serviceID == gcWorkerServiceSafePointID {
 		return errors.New("cannot remove service safe point of gc_worker")
 	}
-	key := path.Join(gcPath, "safe_point", "service", serviceID)
+	key := serviceGCSafePointKey(serviceID)
 	return s.Remove(key)
+}
+
+// serviceGCSafePointKey returns the key of a service's GC safepoint. The service id is appended as it is:
+// path.Join would clean it, and an id such as "x/../gc_worker" or ".." would then address the record of
+// another service or the GC safepoint itself.
+func serviceGCSafePointKey(serviceID string) string {
+	return path.Join(gcPath, "safe_point", "service") + "/" + serviceID
 }
 
 func (s *Storage) initServiceGCSafePointForGCWorker(initialValue uint64) (*ServiceSafePoint, error) {
